@@ -237,15 +237,22 @@ pub struct RxOut {
     pub consumed: Option<usize>,
 }
 
-pub struct Rx<C: CrcCalculator> {
-    pub d: Decapsulator<RecMem, C, TableMgr>,
+pub struct Rx<C: CrcCalculator, M: MandatoryHeaderExtensionManager = TableMgr> {
+    pub d: Decapsulator<RecMem, C, M>,
     /// candidate frag ids for the memory projection (third byte of every buffer seen)
     pub ids: Vec<u8>,
     pub project: bool,
 }
 
-impl<C: CrcCalculator> Rx<C> {
+impl<C: CrcCalculator> Rx<C, TableMgr> {
     pub fn new(slots: usize, pdu_size: usize, crc: C, mgr: TableMgr) -> Self {
+        Rx::with_manager(slots, pdu_size, crc, mgr)
+    }
+}
+
+impl<C: CrcCalculator, M: MandatoryHeaderExtensionManager> Rx<C, M> {
+    /// a receiver over any manager, e.g. the crate's bundled ones
+    pub fn with_manager(slots: usize, pdu_size: usize, crc: C, mgr: M) -> Self {
         let mem = RecMem::new(slots, pdu_size, 0, 0);
         Rx { d: Decapsulator::new(mem, crc, mgr), ids: vec![], project: true }
     }
